@@ -34,6 +34,15 @@ sca toavg   <ins>                                  -> <avg scale> | ERR   (`inf:
 sca avgrt   <ins> <bases>                          -> <scale>|v,… | ERR   (to_average().to_marginal())
 sca tomarg  <avg ins>                              -> <scale> | ERR
 sca copy    <ins> <bases>                          -> <scale>|v,…
+sca cb      <ins> <rate> <lo|~> <hi|~> <bases>     -> <scale>|v,…    (combine_bracket called directly; `~` = argument left out)
+sca todict  <mr|la|ma|sa> <k> <dec|-> <ins>        -> k:v,…          (to_dict, for the rate scales after multiply_thresholds(k, dec))
+sca sacalcx <L|R> <ins> <b,…>                      -> v,… | ERR      (single amount with its guards; a base may be `inf` / `-inf`)
+sca meta    <op> <name> <option> <unit> <arg>      -> name|option|unit | ERR | none   (descriptive attributes; `~` = None, `@e` = "")
+sca apth    <t,…> <c,…> <x,…>                      -> v,… | ERR      (commons.apply_thresholds)
+sca switch  <k:v,…> <c,…>                          -> v,… | ERR      (commons.switch)
+sca avgrate <lo:hi|-> <targets> <varyings>         -> r,… | ERR      (commons.average_rate; `nan` where trimmed)
+sca margrate <lo:hi|-> <targets> <varyings>        -> r,… | ERR      (commons.marginal_rate)
+(`<bases>` may start with `f:`: the implementation side then passes a float32 array)
 ```
 -/
 namespace OFCore.Drv
@@ -63,7 +72,7 @@ def parseIns? (s : String) : Option (List (Rat × Rat)) := parseList? parseBrack
 def parseScale? (s : String) : Option Scale := (parseIns? s).map build
 /-- a leading `i:` only tells the implementation side to pass an integer array -/
 def parseBases? (s : String) : Option (List Rat) :=
-  parseList? parseRat? "," (if s.startsWith "i:" then (s.drop 2).toString else s)
+  parseList? parseRat? "," (if s.startsWith "i:" || s.startsWith "f:" then (s.drop 2).toString else s)
 def parseRd? (s : String) : Option (Option Nat) := if s = "-" then some none else s.toNat?.map some
 
 def showList {α} (f : α → String) (l : List α) : String :=
@@ -107,7 +116,7 @@ def withCalc (s : Scale) (xs : List Rat) : String := s!"{showScale s}|{showVals 
 /-! ### histories: a sequence of operations on four scale objects `r0 … r3`
 
 `sca hist <step>;<step>;… <bases>`; the fields of a step are separated by `_`:
-`new_d_<ins>`, `addb_d_t_r`, `addts_d_s`, `multi_d_k` / `mulri_d_k` (in place), `mult_d_s_k` / `mulr_d_s_k` /
+`new_d_<ins>`, `addb_d_t_r`, `addts_d_s`, `cb_d_rate_lo_hi` (combine_bracket, `~` = argument left out), `multi_d_k` / `mulri_d_k` (in place), `mult_d_s_k` / `mulr_d_s_k` /
 `sts_d_s_k` / `inv_d_s` / `avgrt_d_s` / `copy_d_s` (`r_d := op(r_s)`), `calc_s`.  Answer: one token per step
 (`<scale of r_d>|<calc of r_d at the bases>`, `ERR` when the operation raises — `r_d` is then unchanged —,
 the values for `calc_s`), then `#` and the four scales, all joined by `;`.  The model is pure: every
@@ -153,6 +162,11 @@ def histStep (xs : List Rat) (regs : List Scale) (step : String) : Option (List 
   | ["copy", d, s] => do
     let d ← reg? d; let s ← reg? s
     put d (copy (regs.getD s []))
+  | ["cb", d, rate, lo, hi] => do
+    let d ← reg? d
+    let lo ← if lo = "~" then some none else (parseRat? lo).map some
+    let hi ← if hi = "~" then some none else (parseRat? hi).map some
+    put d (combineBracketD (regs.getD d []) (← parseRat? rate) lo hi)
   | ["calc", s] => do
     let s ← reg? s
     some (regs, showVals (calc0 (regs.getD s []) xs))
@@ -165,8 +179,84 @@ def runHist (xs : List Rat) : List String → List Scale → List String → Opt
     | some (regs', tok) => runHist xs rest regs' (tok :: acc)
     | none => none
 
+
+/-! ### descriptive attributes, extended bases, `nan` -/
+
+/-- `~` = `None`, `@e` = the empty string -/
+def parseOptStr (s : String) : Option String := if s = "~" then none else if s = "@e" then some "" else some s
+def showOptStr : Option String → String
+  | none => "~"
+  | some t => if t = "" then "@e" else t
+def showMeta (m : Meta) : String := s!"{showOptStr (some m.name)}|{showOptStr m.option}|{showOptStr m.unit}"
+
+/-- `sca meta <op> <name> <option> <unit> <arg>`: the scale is built as `cls(name, option, unit)`, then `op` -/
+def handleMeta (op name option unit arg : String) : String :=
+  let m := metaInit (parseOptStr name) (parseOptStr option) (parseOptStr unit)
+  match op with
+  | "init" => showMeta m
+  | "copy" => showMeta (metaCopy m)
+  | "sts" => showEx showMeta (metaScaleTaxScales m)
+  | "inv" => showMeta (metaInverse m)
+  | "toavg" => showMeta (metaConvert m)
+  | "tomarg" => showMeta (metaConvert m)
+  | "avgrt" => showMeta (metaConvert (metaConvert m))
+  | "mul0" => showEx showMeta (metaMultiply m true (parseOptStr arg))
+  | "mul1" => showEx showMeta (metaMultiply m false (parseOptStr arg))
+  | "cts" => match metaCombine (parseOptStr arg) none with
+    | some r => showMeta r | none => "none"
+  | "ctsacc" => match metaCombine (parseOptStr arg) (some m) with
+    | some r => showMeta r | none => "none"
+  | _ => "BAD"
+
+def parseEBase? (s : String) : Option EBase :=
+  if s = "inf" then some .posInf else if s = "-inf" then some .negInf else (parseRat? s).map .fin
+
+def showNan : Option Rat → String
+  | some q => showRat q
+  | none => "nan"
+
+def parseTrim? (s : String) : Option (Option (Rat × Rat)) :=
+  if s = "-" then some none else (parseBracket? s).map some
+
+def parseOptRat? (s : String) : Option (Option Rat) := if s = "~" then some none else (parseRat? s).map some
+
 def handleSca (args : List String) : String :=
   match args with
+  | ["meta", op, name, option, unit, arg] => handleMeta op name option unit arg
+  | ["cb", ins, rate, lo, hi, bs] =>
+    match parseScale? ins, parseRat? rate, parseOptRat? lo, parseOptRat? hi, parseBases? bs with
+    | some s, some r, some lo, some hi, some xs => withCalc (combineBracketD s r lo hi) xs
+    | _, _, _, _, _ => "BAD"
+  | ["todict", kind, k, dec, ins] =>
+    match parseRat? k, parseRd? dec, parseScale? ins with
+    | some k, some dec, some s =>
+      if kind = "mr" || kind = "la" then showScale (toDict (multiplyThresholds s k dec))
+      else if kind = "ma" || kind = "sa" then showScale (toDict s)
+      else "BAD"
+    | _, _, _ => "BAD"
+  | ["sacalcx", side, ins, bs] =>
+    let right := if side = "R" then some true else if side = "L" then some false else none
+    match right, parseScale? ins, parseList? parseEBase? "," bs with
+    | some right, some s, some xs => showEx showVals (xs.mapM (calcSAE right s))
+    | _, _, _ => "BAD"
+  | ["apth", ths, cs, xs] =>
+    match parseBases? ths, parseBases? cs, parseBases? xs with
+    | some ths, some cs, some xs => showEx showVals (xs.mapM (fun x => applyThresholds x ths cs))
+    | _, _, _ => "BAD"
+  | ["switch", tbl, cs] =>
+    match parseIns? tbl, parseBases? cs with
+    | some tbl, some cs => showEx showVals (cs.mapM (fun c => switchSel c tbl))
+    | _, _ => "BAD"
+  | ["avgrate", trim, ts, vs] =>
+    match parseTrim? trim, parseBases? ts, parseBases? vs with
+    | some trim, some ts, some vs =>
+      if ts.length ≠ vs.length then "BAD"
+      else showEx (showList showNan) ((List.zip ts vs).mapM (fun tv => averageRate trim tv.1 tv.2))
+    | _, _, _ => "BAD"
+  | ["margrate", trim, ts, vs] =>
+    match parseTrim? trim, parseBases? ts, parseBases? vs with
+    | some trim, some ts, some vs => showEx (showList showNan) (marginalRateFD trim ts vs)
+    | _, _, _ => "BAD"
   | ["build", ins] => match parseScale? ins with
     | some s => showScale s | none => "BAD"
   | [op, e, f, rd, ins, bs] =>
